@@ -2,6 +2,7 @@ package ast
 
 import (
 	"bytes"
+	"sort"
 	"strings"
 
 	"github.com/skx/evalfilter/v2/token"
@@ -34,6 +35,11 @@ func (hl *HashLiteral) String() string {
 			pairs = append(pairs, key.String()+":"+value.String())
 		}
 	}
+
+	// The pairs are stored in a map: list them in a fixed order, so
+	// that the same literal always gives the same string.
+	sort.Strings(pairs)
+
 	out.WriteString("{")
 	out.WriteString(strings.Join(pairs, ", "))
 	out.WriteString("}")
